@@ -12,6 +12,7 @@ import (
 	"strconv"
 	"strings"
 	"sync"
+	"sync/atomic"
 	"testing"
 	"time"
 
@@ -49,6 +50,8 @@ type tap struct {
 	bfGet     int64
 	bfGetRO   int64
 	scriptRun int64
+	capture   bool       // while set, the script invocations the server receives are kept (witness material only)
+	got       [][]string // "<command> <ARGV...>" of the captured invocations
 }
 
 func (tp *tap) hook(e fakeredis.Event) {
@@ -74,6 +77,9 @@ func (tp *tap) hook(e fakeredis.Event) {
 		case 2:
 			tp.addK = e.Argv[3+nk]
 		}
+		if tp.capture && len(tp.got) < 8 {
+			tp.got = append(tp.got, append([]string{cmd}, e.Argv[3+nk:]...))
+		}
 	case "script":
 		tp.scriptRun++
 	case "exec":
@@ -91,6 +97,98 @@ func (tp *tap) hook(e fakeredis.Event) {
 			tp.bfGetRO++
 		}
 	}
+}
+
+// heldClient is the rueidis.Client handed to the filter. Outside a concurrent round it passes everything through.
+// During a round it can hold every participating call at one of the two points where a filter call touches the
+// client interface - asking for a command builder (the call has prepared its script arguments, the command is not
+// assembled yet) or handing the finished command over (assembled, not sent yet) - until all calls of the round have
+// reached that point (or have returned), and then lets them continue together. It never reorders or changes anything.
+type heldClient struct {
+	rueidis.Client
+	mu       sync.Mutex
+	cond     *sync.Cond
+	point    string // "" (nothing held), "B" or "Do"
+	need     int    // calls in the round
+	arrived  int
+	finished int // calls that returned without reaching the point
+	open     bool
+	together int // calls that stood at the point when it opened
+	forced   bool
+	inflight atomic.Int64
+	maxIn    atomic.Int64
+}
+
+func (h *heldClient) begin(point string, need int) {
+	h.mu.Lock()
+	h.point, h.need, h.arrived, h.finished, h.open, h.together, h.forced = point, need, 0, 0, point == "", 0, false
+	h.mu.Unlock()
+	h.maxIn.Store(0)
+}
+
+func (h *heldClient) release(forced bool) {
+	h.mu.Lock()
+	if !h.open {
+		h.open, h.together, h.forced = true, h.arrived, forced
+		h.cond.Broadcast()
+	}
+	h.mu.Unlock()
+}
+
+func (h *heldClient) at(point string) {
+	h.mu.Lock()
+	defer h.mu.Unlock()
+	if h.open || h.point != point {
+		return
+	}
+	h.arrived++
+	if h.arrived+h.finished >= h.need {
+		h.open, h.together = true, h.arrived
+		h.cond.Broadcast()
+		return
+	}
+	for !h.open {
+		h.cond.Wait()
+	}
+}
+
+// returned is called when a call of the round has come back: a call that never reached the point must not keep the others waiting.
+func (h *heldClient) returned() {
+	h.mu.Lock()
+	h.finished++
+	if !h.open && h.arrived+h.finished >= h.need {
+		h.open, h.together = true, h.arrived
+		h.cond.Broadcast()
+	}
+	h.mu.Unlock()
+}
+
+func (h *heldClient) B() rueidis.Builder {
+	h.at("B")
+	return h.Client.B()
+}
+
+func (h *heldClient) Do(ctx context.Context, cmd rueidis.Completed) rueidis.RedisResult {
+	h.at("Do")
+	n := h.inflight.Add(1)
+	for {
+		m := h.maxIn.Load()
+		if n <= m || h.maxIn.CompareAndSwap(m, n) {
+			break
+		}
+	}
+	defer h.inflight.Add(-1)
+	return h.Client.Do(ctx, cmd)
+}
+
+// cop is one call of a concurrent round: planned by the driver's goroutine, executed by its own goroutine, judged after all have returned.
+type cop struct {
+	kind   string // Add, AddMulti, Exists, ExistsMulti, Count
+	keys   []string
+	err    error
+	res    []bool
+	cnt    uint64
+	panicV any
 }
 
 type driver struct {
@@ -222,7 +320,9 @@ func (d *driver) runConfig(c cfg, nops int, big bool) string {
 	if c.ro {
 		opts = append(opts, rueidisprob.WithEnableReadOperation(true))
 	}
-	bf, err := rueidisprob.NewBloomFilter(client, "c35", c.n, c.rate, opts...)
+	hc := &heldClient{Client: client, open: true}
+	hc.cond = sync.NewCond(&hc.mu)
+	bf, err := rueidisprob.NewBloomFilter(hc, "c35", c.n, c.rate, opts...)
 	if err != nil {
 		run.Inconclusive("constructor accepted in the dry run but not now: " + err.Error())
 		return ""
@@ -242,8 +342,8 @@ func (d *driver) runConfig(c cfg, nops int, big bool) string {
 	key := func() string { return fmt.Sprintf("%s hashes=%s%s", base, k, shape) }
 	note := func(op string, keys []string, res string) {
 		hist = append(hist, opRec{Op: op, Keys: short(keys), Res: res})
-		if len(hist) > 12 {
-			hist = hist[len(hist)-12:]
+		if len(hist) > 18 {
+			hist = hist[len(hist)-18:]
 		}
 	}
 	fail := func(op string, err error) {
@@ -461,6 +561,232 @@ func (d *driver) runConfig(c cfg, nops int, big bool) string {
 		return true
 	}
 
+	// concurrentRound: 2-5 goroutines call Add / AddMulti / Exists / ExistsMulti / Count on this ONE filter value at the same
+	// time, with single-key and 2-3-key calls (a BloomFilter is meant to be shared by goroutines like the client it wraps).
+	// The calls either run freely or are held together at one of the two points where a filter call touches the client
+	// interface (see heldClient), so that every call of the round is between "arguments prepared" and "command assembled"
+	// (or between "assembled" and "sent") at the same moment. The oracle is the statement's and nothing more: a query
+	// for an item whose add had RETURNED before the round began must say present; an item whose add returned nil in the
+	// round must be present in queries made after the round; answers are per input key; a Count is never below one that
+	// had returned before the round. What concurrent calls of one round see of each other is left open.
+	concurrentRound := func() bool {
+		g := 2 + d.rng.Intn(4)
+		mode := []string{"held-before-command-building", "held-before-sending", "free-running"}[d.rng.Intn(3)]
+		small := func() int { return 1 + d.rng.Intn(min(3, maxItems)) }
+		query := func() string {
+			if len(memberList) > 0 && d.rng.Intn(10) < 7 {
+				return pickMember()
+			}
+			return d.item("absent")
+		}
+		ops := make([]*cop, g)
+		var kinds []string
+		for j := range ops {
+			o := &cop{}
+			switch p := d.rng.Intn(100); {
+			case p < 35:
+				o.kind = "Add"
+				o.keys = []string{d.item("c")}
+				if d.rng.Intn(8) == 0 && len(memberList) > 0 {
+					o.keys[0] = pickMember()
+				}
+			case p < 50:
+				o.kind = "AddMulti"
+				o.keys = make([]string, small())
+				for i := range o.keys {
+					o.keys[i] = d.item("c")
+				}
+			case p < 75:
+				o.kind = "Exists"
+				o.keys = []string{query()}
+			case p < 92:
+				o.kind = "ExistsMulti"
+				o.keys = make([]string, small())
+				for i := range o.keys {
+					o.keys[i] = query()
+				}
+			default:
+				o.kind = "Count"
+			}
+			ops[j] = o
+			kinds = append(kinds, o.kind)
+		}
+		sort.Strings(kinds)
+		tp.mu.Lock()
+		tp.capture, tp.got = true, nil
+		tp.mu.Unlock()
+		hc.begin(map[string]string{"held-before-command-building": "B", "held-before-sending": "Do", "free-running": ""}[mode], g)
+		start := make(chan struct{})
+		var wg sync.WaitGroup
+		for _, o := range ops {
+			wg.Add(1)
+			go func(o *cop) {
+				defer wg.Done()
+				defer hc.returned()
+				defer func() {
+					if p := recover(); p != nil {
+						o.panicV = p
+					}
+				}()
+				<-start
+				switch o.kind {
+				case "Add":
+					o.err = bf.Add(ctx, o.keys[0])
+				case "AddMulti":
+					o.err = bf.AddMulti(ctx, o.keys)
+				case "Exists":
+					var b bool
+					b, o.err = bf.Exists(ctx, o.keys[0])
+					o.res = []bool{b}
+				case "ExistsMulti":
+					o.res, o.err = bf.ExistsMulti(ctx, o.keys)
+				case "Count":
+					o.cnt, o.err = bf.Count(ctx)
+				}
+			}(o)
+		}
+		// not a verdict: should a call ever block before reaching the holding point, the others are let go eventually
+		safety := time.AfterFunc(3*time.Minute, func() { hc.release(true) })
+		close(start)
+		wg.Wait()
+		safety.Stop()
+		hc.mu.Lock()
+		together, forced := hc.together, hc.forced
+		hc.mu.Unlock()
+		maxIn := hc.maxIn.Load()
+		hc.begin("", 0)
+		tp.mu.Lock()
+		got := tp.got
+		tp.capture, tp.got = false, nil
+		tp.mu.Unlock()
+
+		shape = " concurrent-calls-on-one-filter(" + mode + ")"
+		defer func() { shape = "" }()
+		for _, o := range ops {
+			res := "ok"
+			switch {
+			case o.panicV != nil:
+				res = "panic: " + fmt.Sprint(o.panicV)
+			case o.err != nil:
+				res = "error: " + o.err.Error()
+			case o.kind == "Count":
+				res = fmt.Sprint(o.cnt)
+			case o.res != nil:
+				res = fmt.Sprint(o.res)
+			}
+			note("concurrently: "+o.kind, o.keys, res)
+		}
+		for _, a := range got {
+			note("(server received "+a[0]+" with ARGV)", a[1:], "")
+		}
+		overlapped := together >= 2
+		if mode == "free-running" {
+			overlapped = maxIn >= 2
+		}
+		run.Observe("concurrent_rounds", 1)
+		run.Observe("concurrent_rounds_"+strings.ReplaceAll(mode, "-", "_"), 1)
+		run.Observe("concurrent_calls", int64(g))
+		if forced {
+			run.Observe("concurrent_rounds_released_by_the_safety_timer", 1)
+		}
+		if overlapped {
+			run.Observe("concurrent_rounds_with_overlapping_calls", 1)
+			run.Observe("concurrent_rounds_with_overlapping_calls_"+strings.ReplaceAll(mode, "-", "_"), 1)
+		}
+		for _, o := range ops {
+			if o.panicV != nil {
+				run.Violation("panic", key()+" op="+o.kind, map[string]any{"panic": fmt.Sprint(o.panicV), "history": hist})
+				return false
+			}
+		}
+		for _, o := range ops {
+			if o.err != nil {
+				fail(o.kind+" (concurrent round)", o.err)
+				return false
+			}
+		}
+		singles, memberQueries := 0, 0
+		roundMax, sawCount := uint64(0), false
+		for _, o := range ops {
+			if len(o.keys) == 1 {
+				singles++
+			}
+			switch o.kind {
+			case "Exists", "ExistsMulti":
+				if len(o.res) != len(o.keys) {
+					run.Violation("misaligned-answers", key()+" "+o.kind, map[string]any{"config": c.String(), "keys": short(o.keys), "answers": o.res, "history": hist})
+					return false
+				}
+				for i, x := range o.keys {
+					if !members[x] { // not added before the round: nothing is demanded of this answer
+						continue
+					}
+					memberQueries++
+					run.Observe("member_answers_checked", 1)
+					run.Observe("member_answers_checked_during_concurrent_calls", 1)
+					if !o.res[i] {
+						run.Violation("false-negative", key()+itemShape(o.keys, i), map[string]any{"config": c.String(), "call": o.kind + " (one of the concurrent calls; the item had been added before them)", "position": i, "key": strconv.Quote(x), "keys": short(o.keys), "answers": o.res, "history": hist})
+						return false
+					}
+				}
+			case "Count":
+				run.Observe("count_checks", 1)
+				run.Observe("count_checks_during_concurrent_calls", 1)
+				if haveCount && o.cnt < lastCount {
+					run.Violation("count-decreased", key(), map[string]any{"config": c.String(), "previous": lastCount, "now": o.cnt, "history": hist})
+					return false
+				}
+				roundMax, sawCount = max(roundMax, o.cnt), true
+			}
+		}
+		if sawCount { // every Count of the round has returned: later ones must not be below any of them
+			if haveCount {
+				roundMax = max(roundMax, lastCount)
+			}
+			lastCount, haveCount = roundMax, true
+		}
+		var added []string
+		seen := map[string]bool{}
+		for _, o := range ops {
+			if o.kind != "Add" && o.kind != "AddMulti" {
+				continue
+			}
+			run.Observe("adds", 1)
+			run.Observe("adds_by_concurrent_calls", 1)
+			run.Observe("items_added", int64(len(o.keys)))
+			if len(o.keys) == 1 {
+				run.Observe("single_item_adds_by_concurrent_calls", 1)
+			}
+			for _, x := range o.keys {
+				if !seen[x] {
+					seen[x] = true
+					added = append(added, x)
+				}
+				if !members[x] {
+					members[x] = true
+					memberList = append(memberList, x)
+				}
+			}
+		}
+		if singles >= 2 && overlapped {
+			run.Observe("concurrent_rounds_with_overlapping_single_item_calls", 1)
+		}
+		run.Case(fmt.Sprintf("%s ro=%v k=%s concurrent %s calls=%s", base, c.ro, k, mode, strings.Join(kinds, "+")), overlapped && (len(added) > 0 || memberQueries > 0))
+		// every item whose add returned nil in the round must be present now
+		for i := 0; i < len(added); i += maxItems {
+			chunk := added[i:min(len(added), i+maxItems)]
+			if len(chunk) == 1 && d.rng.Intn(2) == 0 {
+				if !checkOne(chunk[0]) {
+					return false
+				}
+			} else if !checkMulti(chunk) {
+				return false
+			}
+			run.Observe("items_added_by_concurrent_calls_checked_afterwards", int64(len(chunk)))
+		}
+		return true
+	}
+
 	// the first operation is always a single Add: it tells the monitor how many hash functions the client uses
 	if !add([]string{d.fresh("m")}, false) {
 		return k
@@ -518,6 +844,9 @@ func (d *driver) runConfig(c cfg, nops int, big bool) string {
 		default:
 			ok = wipe("Delete")
 		}
+		if ok && i%12 == 11 {
+			ok = concurrentRound()
+		}
 		if !ok {
 			return k
 		}
@@ -546,11 +875,12 @@ func (d *driver) runConfig(c cfg, nops int, big bool) string {
 func TestC35(t *testing.T) {
 	run := mon.Start(t, "C35", "exploration",
 		"every grid point (expectedNumberOfItems in {0,1,2,3,10,100,1e4,1e6,1e7,+one near the 2^32-bit limit in the thorough tier} x falsePositiveRate in {5e-324,1e-300,1e-12,1e-6,0.01,0.5,0.7,0.7071,0.7072,0.75,0.9,0.99,0.999999,1-2^-53,1,1+2^-52,0,-0.5,NaN,+Inf} x read-only-script option) that NewBloomFilter accepts gets a random history of "+
-			"Add/AddMulti (1-16 items, re-adds, duplicates, binary/long/unicode keys; about one item in seven is a degenerate item: the empty string (half of them) or a NUL/whitespace/one-byte/number-like/RESP-token/invalid-UTF-8/hash-block-boundary-length item, alone or at any position of a batch, as a member or as a never-added key)/Exists/ExistsMulti (members and fresh keys mixed in random positions)/Count/Reset/Delete against a reference set, about one add in five answered by the server with an error reply (OOM, READONLY, WRONGTYPE, script error) instead of being executed (an Add that returns nil then still counts as added), the shipped Lua scripts executed by fakeredis+minilua; plus a characterisation sweep (n x rate around 1/sqrt(2)) with one Add+Exists+ExistsMulti each; "+
+			"Add/AddMulti (1-16 items, re-adds, duplicates, binary/long/unicode keys; about one item in seven is a degenerate item: the empty string (half of them) or a NUL/whitespace/one-byte/number-like/RESP-token/invalid-UTF-8/hash-block-boundary-length item, alone or at any position of a batch, as a member or as a never-added key)/Exists/ExistsMulti (members and fresh keys mixed in random positions)/Count/Reset/Delete against a reference set, about one add in five answered by the server with an error reply (OOM, READONLY, WRONGTYPE, script error) instead of being executed (an Add that returns nil then still counts as added), and after every 12th operation a concurrent round: 2-5 goroutines calling Add/AddMulti/Exists/ExistsMulti (1-3 items)/Count on the one filter value at the same time, free-running or all held together where a call asks the client for a command builder or hands the finished command over (items added before the round must be reported present by the round's queries, items whose add returned nil in the round by queries after it), the shipped Lua scripts executed by fakeredis+minilua; plus a characterisation sweep (n x rate around 1/sqrt(2)) with one Add+Exists+ExistsMulti each; "+
 			"a case = (n, rate, option, hash functions seen on the wire, call kind, how many members / fresh keys were queried), non-trivial when a member was queried (or Count had a positive predecessor)")
 	defer run.Finish()
 	run.Assume("fakeredis BITFIELD/BITFIELD_RO/SET/DEL/INCRBY/GET and minilua execute the shipped scripts as Redis 7 would (harness self tests)",
-		"the number of hash functions of a configuration is read from ARGV[1] of the EVALSHA the server received, not from rueidisprob internals")
+		"the number of hash functions of a configuration is read from ARGV[1] of the EVALSHA the server received, not from rueidisprob internals",
+		"a BloomFilter value may be used by several goroutines at once, like the rueidis.Client it wraps; in a concurrent round only calls that had returned before another began are ordered (the oracle demands nothing about what overlapping calls see of each other)")
 	d := &driver{run: run, rng: run.Rand("history")}
 
 	ns := []uint{0, 1, 2, 3, 10, 100, 10_000, 1_000_000, 10_000_000}
@@ -658,5 +988,7 @@ func TestC35(t *testing.T) {
 	}
 	run.Extra("rejected_configs", rejected)
 	run.Require("member_answers_checked", "multi_positions_checked", "count_checks", "resets_and_deletes", "adds_refused_by_server_and_reported", "bitfield_set_in_scripts", "bitfield_get_in_scripts", "bitfield_ro_get_in_scripts", "evalsha_ro_received", "true_negatives",
-		"empty_item_member_answers_checked", "member_answers_checked_after_an_empty_item_in_the_call", "edge_item_member_answers_checked")
+		"empty_item_member_answers_checked", "member_answers_checked_after_an_empty_item_in_the_call", "edge_item_member_answers_checked",
+		"concurrent_rounds_with_overlapping_calls", "concurrent_rounds_with_overlapping_single_item_calls", "concurrent_rounds_with_overlapping_calls_held_before_command_building",
+		"items_added_by_concurrent_calls_checked_afterwards", "member_answers_checked_during_concurrent_calls")
 }
